@@ -1,6 +1,7 @@
 package engines
 
 import (
+	"fmt"
 	"strings"
 
 	"verif/harness/internal/core"
@@ -190,6 +191,44 @@ func asaVPNSpace() *space {
 		i /= 2
 		return core.Files{Main: asaIntf + vpnText(int(i/per), suffix)},
 			core.Files{Main: vpnText(int(i%per), "")}
+	}
+	return sp
+}
+
+// asaPeerSpace: crypto map entries over {peer A, peer B} x {two crypto ACL
+// contents}: device and target are any sequences of up to three distinct
+// entries, so several entries may share one peer on either side.
+func asaPeerSpace() *space {
+	type ent struct{ peer, net string }
+	ents := []ent{{"10.3.3.3", "10.1.2.0"}, {"10.3.3.3", "10.1.3.0"}, {"10.4.4.4", "10.1.2.0"}, {"10.4.4.4", "10.1.3.0"}}
+	sq := seqs(len(ents), 0, 3)
+	n := int64(len(sq))
+	text := func(s []int, suffix string) string {
+		var b strings.Builder
+		if len(s) == 0 {
+			return ""
+		}
+		b.WriteString("crypto ipsec ikev1 transform-set trans" + suffix + " esp-3des esp-sha-hmac\n")
+		for pos, i := range s {
+			e := ents[i]
+			seq := fmt.Sprint(10 * (pos + 1))
+			acl := "crypto-acl" + seq + suffix
+			b.WriteString("access-list " + acl + " extended permit ip " + e.net + " 255.255.255.0 host 10.3.4.5\n")
+			b.WriteString("crypto map map-outside " + seq + " match address " + acl + "\n")
+			b.WriteString("crypto map map-outside " + seq + " set peer " + e.peer + "\n")
+			b.WriteString("crypto map map-outside " + seq + " set ikev1 transform-set trans" + suffix + "\n")
+		}
+		b.WriteString("crypto map map-outside interface outside\n")
+		return b.String()
+	}
+	sp := &space{name: "vpn-peers", model: "ASA", n: n * n * 2}
+	sp.gen = func(i int64) (core.Files, core.Files) {
+		suffix := ""
+		if i%2 == 1 {
+			suffix = "-DRC-0"
+		}
+		i /= 2
+		return core.Files{Main: asaIntf + text(sq[i/n], suffix)}, core.Files{Main: text(sq[i%n], "")}
 	}
 	return sp
 }
